@@ -328,6 +328,9 @@ def run_property(prop, module_name, argv):
             print("KNOWN-FINDING: property=%s %s :: %s" % (prop, v.key, known_keys[v.key].get("what", v.msg)))
         else:
             new.append(v)
+    for uf in known.get("unruled", []):
+        if uf.get("property") == prop:
+            print("KNOWN-FINDING: property=%s (no rule derives this; confirmed by %s) %s" % (prop, uf.get("confirmed_by", "?"), uf.get("what", "")))
     for k in known_keys:
         if k not in seen_known:
             print("STALE-KNOWN-FINDING: property=%s %s (no longer derived; informational)" % (prop, k))
